@@ -665,3 +665,28 @@ def indirectfam(rng):
     out += ["\t" + c for c in calls]
     out += ["\tx.v = 1", "\t_ = total", "\t_ = harmless", "\tretain(&T{})", "}", ""]
     return "\n".join(out)
+
+
+def handlerfam(rng):
+    """Program family with many small functions, each with its own source-to-sink flow: 40..70 handlers whose source
+    node gets a different node id through 0..30 padding calls. Every flow has its own entry point, so anything keyed
+    by (summary id, node id) - entry points, visited sets - is exercised with many distinct ids, and the summary ids
+    themselves depend on which worker builds which summary first."""
+    n = 40 + rng.below(31)
+    style = rng.pick(["call", "call", "field"])
+    out = ["package main", "", "type T struct {", "\tsrc string", "\tn   int", "}", "",
+           'func source1() string { return "s" }', "func sink1(x any)      {}", "func nop(i int)        {}", ""]
+    for k in range(n):
+        pad = rng.pick([0, 0, 1, 2, 3, 5, 8, 12, 20, 30]) if rng.chance(60) else rng.below(31)
+        out.append("func handler%d(t *T) {" % k)
+        for i in range(pad):
+            out.append("\tnop(%d)" % i)
+        if style == "call":
+            out += ["\tx := source1()", "\tsink1(x)"]
+        else:
+            out += ["\tt.src = source1()", "\tsink1(t.src)"]
+        out += ["}", ""]
+    out += ["func main() {", '\tt := &T{src: "x", n: 1}']
+    out += ["\thandler%d(t)" % k for k in range(n)]
+    out += ["}", ""]
+    return "\n".join(out)
